@@ -66,6 +66,13 @@ pub fn gen(rng: &mut Rng, n: usize) -> Vec<String> {
             out.push(format!("dur {s} {ns}"));
         }
     }
+    // The OS-timer arm of `Timestamp::duration_since`: two `Instant`s a known `Duration` apart.
+    for &s in &[0u64, 1, 2, 59, 60, 3_600, 86_400, 1 << 31, 1 << 40] {
+        for &ns in &[0u64, 1, 999, 1_000, 999_999_999] {
+            out.push(format!("osdur {s} {ns} 0"));
+        }
+    }
+    out.push("osdur 5 7 1".into());
     for step in [1u64, 2, 3, 7, 100, 250, 1 << 20] {
         out.push(format!("prec {step} 1000000000000"));
     }
@@ -93,10 +100,16 @@ pub fn gen(rng: &mut Rng, n: usize) -> Vec<String> {
                 let k = rng.log_u64().min(u64::MAX - a.max(b));
                 out.push(format!("tscshift {a} {b} {k} {}", freq(rng)));
             }
-            14..=16 => out.push(format!(
+            14..=15 => out.push(format!(
                 "dur {} {}",
                 val(rng),
                 rng.below(1_000_000_000)
+            )),
+            16 => out.push(format!(
+                "osdur {} {} {}",
+                rng.log_u64() >> 23,
+                rng.below(1_000_000_000),
+                rng.chance(1, 6) as u8
             )),
             17 => {
                 // The real loop never ends on a clock whose step is below one
@@ -173,6 +186,10 @@ pub fn exec(verb: &str, toks: &[&str]) -> String {
                 pure::tsc_duration_since(b + k, a + k, f)
             )
         }
+        "osdur" => match pure::os_duration_since(std::time::Duration::new(v[0], v[1] as u32), v[2] == 1) {
+            Some(p) => p.to_string(),
+            None => "unrepresentable".into(),
+        },
         "dur" => pure::fine_from_duration(std::time::Duration::new(
             v[0],
             v[1] as u32,
